@@ -319,7 +319,14 @@ let judge_queue (w : which) (_euis : n list) (steps : step list) : string =
                   (match find_dev cur eui with
                    | Some d ->
                      if List.length d.x_inbox <> List.length p.x_inbox + 1 then bad "conformant-uplink-not-recorded-once"
-                     else if List.nth d.x_inbox (List.length d.x_inbox - 1) <> "#" ^ plain then bad "recorded-payload-differs-from-device-plaintext"
+                     else if not (let ent = List.nth d.x_inbox (List.length d.x_inbox - 1) in
+                                  let pl = List.hd (String.split_on_char '@' ent) in pl = "#" ^ plain) then bad "recorded-payload-differs-from-device-plaintext"
+                     else if (let ent = List.nth d.x_inbox (List.length d.x_inbox - 1) in
+                              match String.split_on_char '@' ent with
+                              | [_; meta] ->
+                                meta <> Printf.sprintf "%s:%d:%d:868.100:%s:%s" (hex_of_n rx.rx_gw.g_eui) (int_of_z rx.rx_radio.r_rssi)
+                                  ((int_of_n rx.rx_radio.r_snr - 1000) * 1000) (ocaml_string_of rx.rx_radio.r_datr) (hex_of_n r.d_addr)
+                              | _ -> true) then bad "recorded-reception-metadata-differs"
                      else if not (List.exists (fun pstr -> match String.split_on_char ':' pstr with
                          | [app; e2; pl; gw] -> e2 = eui && pl = plain && n_of_hex gw = rx.rx_gw.g_eui && n_of_hex app = r.d_appeui | _ -> false) ps)
                      then bad "payload-not-published-to-application"
